@@ -547,6 +547,120 @@ def gen_entere(ctx, rng):
     return lines
 
 
+def gen_pseq(ctx, base_by_effort, rng):
+    """PSEQ cases: ONE parameter object lives through a sequence of check() / edit / copy / assign / stage calls
+    (harness/params.cpp header).  The edits use the probe table (values just inside / outside every literal bound)."""
+    lines = []
+    pr = probes()
+    avail = [e for e in range(1, 10) if e in base_by_effort]
+    if not avail:
+        return lines, {}
+    nseq = 700 if ctx.quick else 12000
+    nsteps = 0
+    for _ in range(nseq):
+        k = 0 if rng.coin(60) else rng.uni(1, 6)
+        e = rng.choice(avail)
+        base = base_by_effort[e]
+        mine = [q for q in pr if (q[0][0], q[0][1], FTYPE[q[0]]) in fields_of(k)]
+        steps = []
+
+        def use(n=1):
+            for _ in range(n):
+                c = rng.uni(0, 9)
+                if c <= 3:
+                    steps.append("1")
+                elif c == 4:
+                    steps.append("3")
+                elif c == 5:
+                    steps.append("4 %d %d" % (rng.choice(avail), rng.uni(0, 1)))
+                elif c == 6:
+                    steps.append("5")
+                    steps.append("1")
+                elif c == 7:
+                    steps.append("7 " + ser_struct(k, with_fields(base, [rng.choice(mine)])))
+                elif k == 0:
+                    steps.append("6 %d" % rng.uni(0, 2))
+                else:
+                    steps.append("1")
+        if rng.coin(85):
+            use(rng.uni(1, 2))              # validated (or used for a placement) while valid
+        for _ in range(rng.uni(1, 3)):
+            assigns = [rng.choice(mine) for _ in range(1 if rng.coin(80) else 2)]
+            steps.append("2 " + ser_struct(k, with_fields(base, assigns)))
+            use(rng.uni(1, 3))
+            if rng.coin(40):                # back to the valid values, and used again
+                steps.append("2 " + ser_struct(k, base))
+                use(rng.uni(1, 2))
+        nsteps += len(steps)
+        st = (ser_state(placeable_state(rng)) + " ") if k == 0 else ""
+        lines.append("PSEQ %d %d %s%d %s" % (k, e, st, len(steps), " ".join(steps)))
+    return lines, {"sequences": nseq, "steps": nsteps}
+
+
+def eval_pseq(driver, cases):
+    """runs the PSEQ cases (plain build) and judges every recorded call as the one-shot case it amounts to.
+    returns dict: records, violations [(category, msg, detail)], mismatches [detail], nontrivial set, outcomes"""
+    out = {"records": 0, "violations": [], "mismatches": [], "nontrivial": set(), "outcomes": {}, "oneshot": 0}
+    if not cases:
+        return out
+    harness = common.build_harness("params", "plain")
+    impl, _, _ = common.run_both([harness, "run"], None, cases, timeout=1200, chunk=100)
+    recs = []      # (case, index, oneshot line, observed)
+    for c, line in zip(cases, impl):
+        for n, r in enumerate(line.split(" @@ ")):
+            if " => " in r:
+                a, b = r.split(" => ", 1)
+                recs.append((c, n, a.strip(), b.strip()))
+            elif r.strip() or n == 0:
+                if r.startswith("BADCASE"):
+                    raise common.BuildError("malformed PSEQ case (generator bug): %s\n%s" % (r, c[:300]))
+                out["violations"].append(("PSEQ/dies", "a sequence of check()/edit/copy/stage calls on one parameter object does not end in a "
+                                          "catchable error: " + r[:200], {"case": c, "after_record": n, "implementation_output": line[-400:]}))
+    out["records"] = len(recs)
+    # phase A: every check() of the sequences, and the parameter set of every stage call, as one-shot PCHK on a fresh object
+    def pchk_of(one):
+        if one.startswith("PCHK "):
+            return one
+        t = one.split()
+        _, j = parse_case_state(t, 2)
+        return "PCHK 0 " + " ".join(t[j:])
+    la = sorted(set(pchk_of(r[2]) for r in recs))
+    ia, ma, _ = common.run_both([harness, "run"], [driver], la, timeout=1200)
+    fresh = dict(zip(la, zip(ia, ma)))
+    # phase B: stage calls that were refused, or whose parameters a fresh check() rejects, as one-shot ENTER
+    lb = sorted(set(r[2] for r in recs if r[2].startswith("ENTER ") and (not r[3].startswith("OK") or not fresh[pchk_of(r[2])][0].startswith("OK"))))
+    ib, mb, _ = common.run_both([harness, "run"], [driver], lb, timeout=1200) if lb else ([], [], None)
+    fresh.update(dict(zip(lb, zip(ib, mb))))
+    out["oneshot"] = len(la) + len(lb)
+    for c, n, one, obs in recs:
+        fi, fm = fresh[pchk_of(one)]
+        kind = one.split()[0]
+        key = "seq:%s:%s" % (kind, obs.split(" ", 1)[0])
+        out["outcomes"][key] = out["outcomes"].get(key, 0) + 1
+        if fm.startswith("THROW"):
+            out["nontrivial"].add(one)
+        detail = {"case": c, "variant": "plain", "format": "see harness/params.cpp header (PSEQ)", "record": n,
+                  "call_as_one_shot_case": one, "implementation_output": obs, "fresh_object_same_values": fi, "model_output": fm}
+        if kind == "PCHK":
+            if obs.startswith("OK") and fi.startswith("THROW"):
+                msg = ("after an earlier check()/copy/use of the same object, check() accepts field values that check() rejects on a fresh "
+                       "object (%s)" % fi[6:80])
+                out["violations"].append(("PSEQ/rejected-values-accepted", msg, dict(detail, why=msg)))
+            elif died(obs):
+                out["violations"].append(("PSEQ/dies", "check() inside a sequence does not end in a catchable error: " + obs[:120], dict(detail)))
+            elif obs != fm.strip():
+                out["mismatches"].append(detail)
+        else:
+            why = oracle(one, obs, {one: fi})
+            if why:
+                out["violations"].append(("PSEQ-ENTER/" + why[0], "inside a sequence on one parameter object: " + why[1], dict(detail, why=why[1])))
+            elif one in fresh:
+                m2 = fresh[one][1]
+                if not m2.startswith("WORK") and norm_for_compare(one, obs) != norm_for_compare(one, m2):
+                    out["mismatches"].append(dict(detail, model_output=m2, fresh_object_same_values=fresh[one][0]))
+    return out
+
+
 # ------------------------------------------------------------------ oracle: the statement of C19 on the C++ output
 def split_state(line):
     """'RES | state' -> (RES, [state tokens]) ; (line, None) when there is no state"""
@@ -801,6 +915,31 @@ def run(ctx):
                 nmism += 1
                 if first_mism is None:
                     first_mism = {"case": c, "variant": variant, "implementation": i, "model": m}
+    # sequences on ONE parameter object (stale state kept between calls): every recorded call judged as a one-shot case
+    pseq_cases = common.corpus("C19", ("PSEQ ",))
+    pseq_dist = {}
+    for sd in ([ctx.seed] if ctx.quick else [ctx.seed, ctx.seed + 1000, ctx.seed + 2000]):
+        l, d = gen_pseq(ctx, base_by_effort, common.Rng(sd + 77))
+        pseq_cases += l
+        for k2, v2 in d.items():
+            pseq_dist[k2] = pseq_dist.get(k2, 0) + v2
+    pseq = eval_pseq(driver, pseq_cases)
+    seen_cat = set()
+    for cat, msg, detail in pseq["violations"]:
+        nviol += 1
+        if cat in seen_cat:
+            continue
+        seen_cat.add(cat)
+        ctx.violation("C19 violated by /repo (plain build): " + msg, dict(detail, category=cat))
+    nmism += len(pseq["mismatches"])
+    if first_mism is None and pseq["mismatches"]:
+        m0 = pseq["mismatches"][0]
+        first_mism = {"case": m0["case"], "variant": "plain", "record": m0["record"], "call_as_one_shot_case": m0["call_as_one_shot_case"],
+                      "implementation": m0["implementation_output"], "model": m0["model_output"]}
+    nontriv |= pseq["nontrivial"]
+    outcomes.update(pseq["outcomes"])
+    kinds["PSEQ"] = len(pseq_cases)
+    kinds["PSEQ-recorded-calls"] = pseq["records"]
     prio = ["CTOR-out", "ADDNET", "SETNETS", "ENTER", "ENTERE", "CTOR-in", "SET", "PCHK", "CCHK"]
     for key in sorted(found, key=lambda k: (k[1] != "dies" or k[0] != "CTOR-out", prio.index(k[0]) if k[0] in prio else 99, k[1])):
         variant, c, i, m, msg = found[key]
@@ -833,24 +972,32 @@ def run(ctx):
                           {"broken": "Properties_C19.v", "detail": proof}, found_input=False)
     elif not proof_ok:
         ctx.notes.append("proof broken as well")
-    total = sum(len(r[1]) for r in runs)
+    total = sum(len(r[1]) for r in runs) + pseq["records"] + pseq["oneshot"]
     cov = dict(proof)
     cov.update({"trusted_base": common.TRUSTED_BASE + [
                     "checks/c19.py translator (constructor dump -> coq/ParamsDefaults_gen.v) and its oracle()",
                     "the exact binary values of the literal bounds in Params.v were transcribed by hand (tied by the nextafter probes)"],
                 "evaluations": total, "distinct_nontrivial": len(nontriv),
                 "rule": "non-trivial = the model predicts a refusal (THROW) or the case is a constructor call with an effort in 1..9; "
-                        "distinct = distinct case lines",
+                        "distinct = distinct case lines (sequence stream: distinct one-shot cases that the recorded calls amount to). "
+                        "sequence stream (PSEQ): ONE parameter object (any of the 7 structs, efforts 1..9) lives through check(), in-place "
+                        "edits of its public fields to the probe values just inside/outside every literal bound (and back to valid values), "
+                        "copy construction, assignment into another (checked or unchecked) object, replacement by its own copy, a copy edited "
+                        "on its own, and for ColoquinteParameters placeGlobal/legalize/placeDetailed on a small circuit with valid and then "
+                        "invalid values; EVERY check()/stage call is recorded with the field values (and circuit state) read at that moment "
+                        "and compared with the model and with a fresh object holding those values (one-shot PCHK/ENTER cases)",
+                "sequence_stream": dict(pseq_dist, recorded_calls=pseq["records"], one_shot_cases_derived=pseq["oneshot"],
+                                        calls_differing_from_model=len(pseq["mismatches"]), calls_violating_statement=len(pseq["violations"])),
                 "kinds": kinds, "outcomes_by_variant_kind": outcomes, "pchk_distribution": dist.get("pchk"),
                 "defaults_table_regenerated": changed,
                 "samples": [sets["CTOR"][0], sets["PCHK"][0] if sets["PCHK"] else "", sets["SET"][5], sets["ADDNET"][-1],
-                            sets["SETNETS"][3], enter[0] if enter else "", sets["ENTERE"][0]],
+                            sets["SETNETS"][3], enter[0] if enter else "", sets["ENTERE"][0]] + pseq_cases[-1:],
                 "input_distribution": "constructors: 7 structs x efforts -16..32 exhaustive + 8 special + random 32-bit, child process per case, "
                                       "plain (assertions on) and asan (ASan+UBSan) builds; check(): every literal bound at nextafter below/at/above "
                                       "(ints b-1/b/b+1) singly on 2 bases and in pairs, relational grids, random; setters: 11 setters x n=0..%d cells x "
                                       "every length 0..n+2 x in-use; addNet: pin indices -2..n+1 exhaustive up to 2 pins x offset lengths; setNets: "
                                       "every single malformation of a well-formed argument; stage entry: rejected parameter sets and refused efforts "
-                                      "on small circuits, state compared" % (3 if ctx.quick else 5),
+                                      "on small circuits, state compared; sequences on one parameter object: see rule" % (3 if ctx.quick else 5),
                 "model_vs_impl_differences": nmism, "impl_outputs_violating_statement": nviol,
                 "violation_categories": {"%s/%s" % k: v[4][:160] for k, v in found.items()},
                 "extraction_cross_check": "ok" if vm_bad is None else vm_bad})
@@ -870,6 +1017,17 @@ def replay(ctx, path):
     variant = r.get("variant") or r.get("first_difference", {}).get("variant", "plain")
     harness = common.build_harness("params", variant)
     driver = common.build_driver("params")
+    if case.startswith("PSEQ "):
+        o = eval_pseq(driver, [case])
+        print("case   :", case)
+        print("recorded calls:", o["records"])
+        for cat, msg, d in o["violations"]:
+            print("VIOLATES %s: %s" % (cat, msg))
+            for k2 in ("record", "call_as_one_shot_case", "implementation_output", "fresh_object_same_values", "model_output"):
+                print("   %s: %s" % (k2, d.get(k2)))
+        for d in o["mismatches"]:
+            print("DIFFERS FROM MODEL: record %s %s\n   impl : %s\n   model: %s" % (d["record"], d["call_as_one_shot_case"], d["implementation_output"], d["model_output"]))
+        return 1 if o["violations"] or o["mismatches"] else 0
     impl, model, _ = common.run_both([harness, "run"], [driver], [case])
     aux = followups(harness, [case], impl)
     why = oracle(case, impl[0], aux)
